@@ -10,6 +10,11 @@ CLAIMED = {
    "SSA origin-term / dominance / call-graph rules (argument origin, guard, order, pairing, who-may-call)"),
 }
 
+CLAIMED["C12"] = ("5/C12",
+   "Case-partitioned abstract interpretation (sign(N) x sign(D) x rem=0 x |rem| vs half x quotient parity, enumerated exhaustively) of 41 rounding primitives of osmomath/decimal.go proves result = trunc(N/D)+delta with the delta of the documented mode for operands of either sign, with the documented power-of-ten scale/divisor constants evaluated from the package initialisers; effect analysis proves non-mutating forms never write an operand's big.Int and *Mut forms write only the receiver; every magnitude-growing BigDec operation asserts the bit-length bound on all paths.",
+   "Not covered: exactness of math/big, LegacyDec internals, value-level round-trip of encodings. Trusted: math/big Quo/QuoRem truncation semantics, go/ssa.",
+   "finite-domain abstract interpretation over SSA + alias/effect analysis + must-pass-through (dominance) rule")
+
 NOT_YET = "check not built yet in this revision (static rule set under construction; see DESIGN.md section 5)"
 
 def main():
